@@ -226,6 +226,18 @@ def handleDecode (j : Json) : Except String Json := do
     let sp := fun (xs : List (List Char)) => Json.arr ((Codec.speciesOf (pseudo.map String.toList) xs).map fun x => Json.str (String.ofList x)).toArray
     pure <| Json.arr (ls.map fun l => Json.mkObj [("line", lineJson l), ("reactants", sp l.re), ("products", sp l.pr)]).toArray
 
+def handleKromeFile (j : Json) : Except String Json := do
+  let lines ← (← (← j.getObjVal? "lines").getArr?).toList.mapM (·.getStr?)
+  let pseudo ← (← (← j.getObjVal? "pseudo").getArr?).toList.mapM (·.getStr?)
+  let (st, rs) := Krome.readKrome Krome.KState.init (lines.map String.toList)
+  let S := fun (x : List Char) => Json.str (String.ofList x)
+  let O := fun (x : Option (List Char)) => match x with | some v => S v | none => Json.null
+  let sp := fun (xs : List (List Char)) => Json.arr ((Codec.speciesOf (pseudo.map String.toList) xs).map S).toArray
+  pure <| Json.mkObj [("format", S st.format), ("commons", Json.arr (st.commons.map S).toArray),
+    ("vars", Json.arr (st.vars.map S).toArray),
+    ("reactions", Json.arr (rs.map fun l => Json.mkObj [("idx", O l.idx), ("reactants", sp l.re), ("products", sp l.pr),
+      ("tmin", O l.tmin), ("tmax", O l.tmax), ("rate", O l.rate)]).toArray)]
+
 def handleEncodeNative (j : Json) : Except String Json := do
   let g := fun (k : String) => do pure ((← (← j.getObjVal? k).getStr?).toList)
   let gl := fun (k : String) => do pure ((← (← (← j.getObjVal? k).getArr?).toList.mapM (·.getStr?)).map String.toList)
@@ -370,6 +382,7 @@ def handle (line : String) : String :=
       | "window" => handleWindow j
       | "gasrate" => handleGasRate j
       | "decode" => handleDecode j
+      | "kromefile" => handleKromeFile j
       | "species" => handleSpecies j
       | "renorm" => handleRenorm j
       | "symverdict" => handleSymVerdict j
